@@ -7,7 +7,6 @@
 #define FCPPT_ENUM_FROM_INT_HPP_INCLUDED
 
 #include <fcppt/cast/int_to_enum.hpp>
-#include <fcppt/cast/size.hpp>
 #include <fcppt/enum/is_object.hpp>
 #include <fcppt/enum/size.hpp>
 #include <fcppt/enum/size_type.hpp>
@@ -42,8 +41,11 @@ template <
         std::conjunction_v<std::is_unsigned<Value>, fcppt::enum_::is_object<Enum>>>>
 fcppt::optional::object<Enum> from_int(Value const &_value) noexcept
 {
+  using common_type = std::common_type_t<Value, fcppt::enum_::size_type<Enum>>;
+
   return fcppt::optional::make_if(
-      fcppt::cast::size<fcppt::enum_::size_type<Enum>>(_value) < fcppt::enum_::size<Enum>::value,
+      static_cast<common_type>(_value) <
+          static_cast<common_type>(fcppt::enum_::size<Enum>::value),
       [&_value] { return fcppt::cast::int_to_enum<Enum>(_value); });
 }
 }
